@@ -72,7 +72,7 @@ var c01Operands = []string{"vNil", "vTrue", "vInt", "vNeg", "vBig", "vMax", "vFl
 var c01Templates = []string{
 	"$A", "($A)", "-$A", "!$A", "^$A", "&$A", "*$A", "*$A = $B", "$A + $B", "$A - $B", "$A * $B", "$A / $B", "$A % $B", "$A & $B", "$A | $B",
 	"$A << $B", "$A >> $B", "$A == $B", "$A != $B", "$A < $B", "$A <= $B", "$A > $B", "$A >= $B", "$A && $B", "$A || $B", "$A ? $B : $C", "$A ?? $B",
-	"$A in $B", "len($A)", "$A[$B]", "$A[$B] = $C", "$A[$B:$C]", "$A[$B:]", "$A[:$B]", "$A[$B:$C:$A]", "$A[:$B:$C]", "$A[$B:$C] = $A", "$A.x", "$A.A", "$A.x = $B", "$A.A = $B",
+	"$A in $B", "len($A)", "$A[$B]", "$A[$B] = $C", "$A[$B:$C]", "$A[$B:]", "$A[:$B]", "$A[$B:$C:$A]", "$A[:$B:$C]", "$A[$B:$C] = $A", "$A.x", "$A.A", "$A.x = $B", "$A.A = $B", "$A.s", "$A.size", "try { $A } catch e { e.s; e.Message }", "for k, v in $A { delete($A, k); x = [v] }", "for k, v in vMap { delete(vMap, \"a\"); delete(vMap, \"b\"); delete(vMap, \"l\"); delete(vMap, \"m\"); y = [k, v] }",
 	"$A($B)", "$A($B, $C)", "$A()", "$A($B...)", "$A($B, $C...)", "$A(...)", "vFunc($A...)", "vFunc5($A...)", "vFunc5($A, $B...)", "gAdd($A...)", "gAdd($A, $B...)", "gVar($A...)", "gVar($A, $B...)",
 	"gTyped($A, $B)", "gId($A)", "gAdd($A, $B)", "gVar($A, $B, $C)", "gMulti($A)", "gApply($A)", "gApply2($A, $B)", "gErr($A)", "gPanicErr($A)", "gPanicStr($A)", "gPanicVal($A)",
 	"go $A($B)", "go $A()", "go $A($B...)", "go vFunc($A)", "go gId($A)", "go gPanicErr($A)", "go gPanicVal($A)", "go gApply($A)", "go func(){ $A }()", "go func(a){ a[0] }($A)",
@@ -203,7 +203,8 @@ func c01Mutate(r *rand.Rand, src string) string {
 
 // c01Fixed are the inputs of every crash seen on the pinned tree (all must stay silent once repaired).
 var c01Fixed = []string{
-	"var a =", "x = 1; *x = 2", "a = [[1, 2]]; m = {}; m[a[0]] = 1", "a = [[1, 2]]; {a[0]: 1}", "a = [{}]; m = {}; delete(m, a[0])", "a = [[1]]; m = {}; m[a[0]]", "a = <", "a, ok = <", "vFunc(...)", "f = func(a){ return a }; f(...)", "gAdd([1, \"a\"]...)", "gAdd([1, 2]...)", "[]int64{4, 5} + [nil]",
+	"var a =", "x = 1; *x = 2", "m = {\"a\": 1, \"b\": 2}; for k, v in m { delete(m, \"a\"); delete(m, \"b\"); x = [v] }", "x = &nil; *x = 5; nil",
+	"m = {}; x = &m[\"missing\"]; *x = 5; m.other", "try { break } catch e { e.s }", "try { throw 1 } catch e { [e.Message, e.Pos, e.message] }", "make(type X, 1).size", "t = make(type X, vStruct); t.str", "a = [[1, 2]]; m = {}; m[a[0]] = 1", "a = [[1, 2]]; {a[0]: 1}", "a = [{}]; m = {}; delete(m, a[0])", "a = [[1]]; m = {}; m[a[0]]", "a = <", "a, ok = <", "vFunc(...)", "f = func(a){ return a }; f(...)", "gAdd([1, \"a\"]...)", "gAdd([1, 2]...)", "[]int64{4, 5} + [nil]",
 	"p = new(int64); *p = \"s\"", "a = make([]*int64, 1); for x in a { y = x }; y", "a = make([]*int64, 1); *a[0]",
 	"c = make(chan *int64, 1); c <- make([]*int64, 1)[0]; for x in c { y = x; break }; y", "\"s\" * 9223372036854775807", "a = 1; make(a.b)", "a = {\"b\": 1}; make(a.b)",
 	"go gPanicErr(1)", "go gPanicVal(1)", "go func(){ [1][5] }()", "go func(a){ a[0] }(1)", "go vFunc5(1)", "go gAdd(1)", "go gApply(func(){ throw 1 })", "go gAdd(vList...)",
